@@ -214,6 +214,7 @@ type Frame struct {
 	parent    *Frame
 	deferOf   *Frame // set when this frame runs as a deferred call of deferOf
 	symCount  map[ssa.Instruction]int
+	visits    map[*ssa.BasicBlock]int // entries of each block in this activation (only under vxTerminates)
 	merging    map[*ssa.If]bool
 	phiDone    *ssa.BasicBlock
 	mergedFrom *ssa.BasicBlock
@@ -275,6 +276,7 @@ type Exec struct {
 
 	harness string
 	splits  map[string]int
+	splitN  map[string]int
 	tier    int
 
 	// results of this path
@@ -1244,6 +1246,9 @@ func (ex *Exec) runFrom(fr *Frame, b, prev, stopAt *ssa.BasicBlock) (ret Value, 
 	}
 }
 
+// concreteLoopBound: entries of one basic block in one activation before vxTerminates calls it a hang
+const concreteLoopBound = 100_000
+
 func (ex *Exec) runBlock(fr *Frame, b *ssa.BasicBlock, prev *ssa.BasicBlock) (next *ssa.BasicBlock, ret Value, done bool) {
 	if debugMerge {
 		pi := -1
@@ -1251,6 +1256,22 @@ func (ex *Exec) runBlock(fr *Frame, b *ssa.BasicBlock, prev *ssa.BasicBlock) (ne
 			pi = prev.Index
 		}
 		fmt.Fprintf(os.Stderr, "  block %s#%d from %d spec=%d phiDone=%v\n", fr.fn.Name(), b.Index, pi, ex.specDepth, fr.phiDone != nil)
+	}
+	if ex.unwindIsViolation && ex.specDepth == 0 {
+		// a loop whose conditions are all concrete never reaches the symbolic unwinding bound:
+		// bound the entries of one block in one activation instead
+		if fr.visits == nil {
+			fr.visits = map[*ssa.BasicBlock]int{}
+		}
+		fr.visits[b]++
+		if fr.visits[b] > concreteLoopBound {
+			where := fr.fn.String()
+			if len(b.Instrs) > 0 {
+				where = ex.posOf(b.Instrs[0])
+			}
+			ex.recordViolation("hang", "terminates", fmt.Sprintf("a block of %s entered more than %d times in one activation with every loop condition concrete", fr.fn.String(), concreteLoopBound), where, nil)
+			panic(&pathAbort{Kind: "done", Msg: "termination bound exceeded"})
+		}
 	}
 	// phis first (parallel assignment)
 	nphi := 0
@@ -1289,6 +1310,10 @@ func (ex *Exec) runBlock(fr *Frame, b *ssa.BasicBlock, prev *ssa.BasicBlock) (ne
 	for _, ins := range b.Instrs[nphi:] {
 		ex.steps++
 		if ex.steps > ex.maxSteps {
+			if ex.unwindIsViolation && ex.specDepth == 0 {
+				ex.recordViolation("hang", "terminates", fmt.Sprintf("more than %d instructions on one path", ex.maxSteps), ex.posOf(ins), nil)
+				panic(&pathAbort{Kind: "done", Msg: "termination bound exceeded"})
+			}
 			panic(&pathAbort{Kind: "budget", Msg: "instruction budget exceeded"})
 		}
 		if ex.specDepth > 0 && ex.steps-ex.specStart > specStepLimit {
